@@ -32,9 +32,18 @@ class MeshLine1(MeshSimplex, Mesh):
         from .mesh_line_1 import MeshLine1
 
         if isinstance(other, MeshLine1):
-            return MeshQuad1.init_tensor(self.p[0], other.p[0])
+            m = MeshQuad1.init_tensor(self.p[0], other.p[0])
+            # init_tensor fills the bounding box: keep products of elements
+            x, y = m.p[:, m.t].mean(axis=1)
+            keep = np.nonzero(self._covers(x) & other._covers(y))[0]
+            return m if len(keep) == m.nelements else m.restrict(keep)
 
         return other * self
+
+    def _covers(self, x):
+        """Is ``x`` inside some element?"""
+        a, b = np.sort(self.p[0, self.t], axis=0)
+        return ((a[:, None] < x) & (x < b[:, None])).any(axis=0)
 
     def _uniform(self):
         p, t = self.doflocs, self.t
